@@ -508,7 +508,7 @@ func (r *Run) assumptions() []string {
 		"machine integers treated as mathematical integers (no 64-bit overflow)",
 		"[]byte values are modelled as immutable strings; Go strings as SMT strings (byte/rune distinction dropped)",
 		"termination, stack depth and memory exhaustion are not proved; Code trees are assumed acyclic",
-		"callee contracts are used at call sites (modular verification); obligations of other properties on the same functions are assumed when checking this property",
+		"callee contracts are used at call sites (modular verification); every contracted callee of the property's functions (transitively, through interface implementations too) is verified in the same run",
 		"the heap model: one array per struct field, explicit slice backing arrays with capacity, maps as (domain, values, cardinality) with an arbitrary enumeration order per range loop",
 		"error values are opaque (only nil / non-nil is modelled)",
 	}
